@@ -55,16 +55,17 @@ RULE = (
     'sub-spaces (depth-first over the prefix tree with the real cache '
     'snapshotted / restored between siblings; every prefix is one distinct '
     'history): thorough = all histories of <= 4 operations over the full '
-    'alphabet (1 082 401 per host and size) + all histories of exactly 5 '
-    'operations over the reduced alphabet reported state in {SUCCESSFUL, '
-    'FAILED} (16^5 = 1 048 576 per host and size); quick = all histories of '
-    '<= 3 operations over the full alphabet (33 825) + all histories of '
-    'exactly 4 over the reduced alphabet (65 536).  SAMPLED with the seed, '
-    'run from a fresh state without snapshots: histories of exactly 5 '
-    '(quick: 4) operations over the full alphabet (thorough 20 000, quick '
-    '4 000 per host and size; distinct ones counted by their operation '
-    'list).  Histories of 5 operations over the full alphabet are NOT '
-    'completed (33.5 M per host and size at about 1 ms per operation).  '
+    'alphabet (1 082 400 per host and size) + all histories of exactly 5 '
+    'operations that end with a poll over the reduced alphabet reported '
+    'state in {SUCCESSFUL, FAILED} (16^4 x 8 = 524 288 per host and size); '
+    'quick = all histories of <= 3 operations over the full alphabet '
+    '(33 824) + all histories of exactly 4 ending with a poll over the '
+    'reduced alphabet (32 768).  SAMPLED with the seed, run from a fresh '
+    'state without snapshots: histories of exactly 5 (quick: 4) operations '
+    'over the full alphabet (thorough 10 000, quick 4 000 per host and '
+    'size; distinct ones counted by their operation list).  Histories of 5 '
+    'operations over the full alphabet are NOT completed (33.5 M per host '
+    'and size at about 1 ms per operation).  '
     'non-trivial history = its last operation is a poll whose expected '
     'answer is decided and could be wrong: seen green while the host now '
     'reports something else, or never green / certainly evicted while an '
@@ -97,6 +98,10 @@ ASSUMPTIONS = [
     'depth-first enumeration restores the real BUILD_STATUS_CACHE contents '
     'between siblings; a sample of DFS histories is re-run from a fresh '
     'state and must give the same answers (else inconclusive)',
+    'webhook events reach the real /bitbucket and /github routes through '
+    'the Flask test client; after the first delivery of each distinct event '
+    '(client.post) the WSGI environ is reused (client.run_wsgi_app) to skip '
+    'environ building',
     'the job queue filled by the webhook routes is emptied after each event '
     '(a worker consuming jobs); the jobs themselves are not run',
 ]
@@ -356,6 +361,7 @@ def decode(op):
 
 FULL_OPS = tuple(range(32))
 REDUCED_OPS = tuple(op for op in range(32) if op & 3 in (0, 1))   # S, F
+REDUCED_POLLS = tuple(op for op in REDUCED_OPS if op & 16)
 
 
 def expected_for(host, key, s):
@@ -550,6 +556,9 @@ class Harness:
         self.http = self.app.test_client()
         self.auth = 'Basic ' + base64.b64encode(b'hook:hookpw').decode()
         self.size = None
+        self.environs = {}
+        from io import BytesIO
+        self.BytesIO = BytesIO
 
     # -- the cache ------------------------------------------------------------
     def reset(self, size):
@@ -659,20 +668,17 @@ class Harness:
         else:
             self.world[(sha, key)] = s
 
-    def webhook(self, c, k, s):
-        sha, key = COMMITS[c], self.keys[k]
-        self.set_world(sha, key, s)
+    def webhook_request(self, sha, key, s):
+        """-> (route, headers, JSON body) of the status event."""
         if self.host == 'bitbucket':
             raw = {'S': 'SUCCESSFUL', 'F': 'FAILED', 'P': 'INPROGRESS',
                    'X': 'STOPPED'}[s]
             body = {'commit_status': self.bitbucket_status(sha, key, raw),
                     'repository': {'name': SLUG, 'full_name': '%s/%s' % (
                         OWNER, SLUG), 'owner': {'username': OWNER}}}
-            resp = self.http.post(
-                '/bitbucket', data=json.dumps(body),
-                headers={'X-Event-Key': 'repo:commit_status_updated',
-                         'Authorization': self.auth})
-        elif key == 'github_actions':
+            return '/bitbucket', {'X-Event-Key': 'repo:commit_status_updated',
+                                  'Authorization': self.auth}, body
+        if key == 'github_actions':
             run = self.github_runs(sha)[0]
             body = {'action': 'completed' if run['conclusion']
                     else 'requested',
@@ -681,22 +687,47 @@ class Harness:
                                     'status': run['status'],
                                     'conclusion': run['conclusion']},
                     'repository': self.github_repo_json()}
-            resp = self.http.post(
-                '/github', data=json.dumps(body),
-                headers={'X-Github-Event': 'check_suite',
-                         'Authorization': self.auth})
+            return '/github', {'X-Github-Event': 'check_suite',
+                               'Authorization': self.auth}, body
+        body = {'sha': sha, 'context': key, 'description': 'scripted',
+                'state': {'S': 'success', 'F': 'failure', 'P': 'pending',
+                          'X': 'error'}[s],
+                'target_url': 'https://ci.test/%s' % key,
+                'repository': self.github_repo_json()}
+        return '/github', {'X-Github-Event': 'status',
+                           'Authorization': self.auth}, body
+
+    def webhook(self, c, k, s):
+        """Deliver the event to the real route with the Flask test client.
+        The first delivery of each of the 16 distinct events goes through
+        client.post(); its WSGI environ is built once more and kept, later
+        deliveries hand a copy of it (with a fresh body stream) to the same
+        test client's run_wsgi_app() - same application, same routes, minus
+        250 us of environ building per event."""
+        sha, key = COMMITS[c], self.keys[k]
+        self.set_world(sha, key, s)
+        kept = self.environs.get((c, k, s))
+        if kept is None:
+            from flask.testing import EnvironBuilder
+            route, headers, body = self.webhook_request(sha, key, s)
+            data = json.dumps(body).encode()
+            builder = EnvironBuilder(self.app, route, method='POST',
+                                     data=data, headers=headers)
+            try:
+                self.environs[(c, k, s)] = (builder.get_environ(), data)
+            finally:
+                builder.close()
+            code = self.http.post(route, data=data,
+                                  headers=headers).status_code
         else:
-            body = {'sha': sha, 'context': key, 'description': 'scripted',
-                    'state': {'S': 'success', 'F': 'failure', 'P': 'pending',
-                              'X': 'error'}[s],
-                    'target_url': 'https://ci.test/%s' % key,
-                    'repository': self.github_repo_json()}
-            resp = self.http.post(
-                '/github', data=json.dumps(body),
-                headers={'X-Github-Event': 'status',
-                         'Authorization': self.auth})
+            environ = dict(kept[0])
+            environ['wsgi.input'] = self.BytesIO(kept[1])
+            rv = self.http.run_wsgi_app(environ, buffered=True)
+            for _ in rv[0]:
+                pass
+            code = int(rv[1].split()[0])
         self.bert_e.task_queue.queue.clear()
-        return resp.status_code
+        return code
 
     def poll(self, c, k, s):
         sha, key = COMMITS[c], self.keys[k]
@@ -817,8 +848,10 @@ def run_fresh(h, size, ops, acc, counted=False):
 
 
 class Dfs:
-    def __init__(self, h, size, alphabet, maxdepth, count_from, acc, keep):
+    def __init__(self, h, size, alphabet, maxdepth, count_from, acc, keep,
+                 last_alphabet=None):
         self.h, self.size, self.alphabet = h, size, alphabet
+        self.last_alphabet = last_alphabet or alphabet
         self.maxdepth, self.count_from, self.acc = maxdepth, count_from, acc
         self.keep = keep          # re-run every keep-th leaf from scratch
         self.leaves = 0
@@ -846,7 +879,8 @@ class Dfs:
         h, acc = self.h, self.acc
         real, model = h.snap(), ref.snap()
         counted = len(seq) + 1 >= self.count_from
-        for op in self.alphabet:
+        for op in (self.last_alphabet if len(seq) + 1 == self.maxdepth
+                   else self.alphabet):
             seq.append(op)
             step(h, ref, op, seq, acc, counted, answers)
             self.walk(ref, seq, answers)
@@ -872,7 +906,7 @@ class Dfs:
 def cache_units(tier):
     """Work units of part 2, the same list in every shard."""
     full_depth = 4 if tier == 'thorough' else 3
-    nsample = 20000 if tier == 'thorough' else 4000
+    nsample = 10000 if tier == 'thorough' else 4000
     chunk = 500
     units = []
     for host in ('bitbucket', 'github'):
@@ -920,8 +954,10 @@ def run_cache(spec, acc):
             key = (kind, host, size)
             d = dfs.get(key)
             if d is None:
-                d = dfs[key] = Dfs(h, size, alphabet, depth, count_from, acc,
-                                   keep=997 if tier == 'thorough' else 97)
+                d = dfs[key] = Dfs(
+                    h, size, alphabet, depth, count_from, acc,
+                    keep=997 if tier == 'thorough' else 97,
+                    last_alphabet=None if kind == 'full' else REDUCED_POLLS)
             d.unit(what, own_first=(what[1] == alphabet[0]))
         done += 1
         if limit and done >= limit:
@@ -937,9 +973,10 @@ def run_cache(spec, acc):
     acc.exhaustive['cache: all histories of <= %d operations, 32-operation '
                    'alphabet, hosts {bitbucket, github} x cache size '
                    '{1, 1000}' % full_depth] = True
-    acc.exhaustive['cache: all histories of exactly %d operations, reported '
-                   'state in {SUCCESSFUL, FAILED}, hosts {bitbucket, github} '
-                   'x cache size {1, 1000}' % (full_depth + 1)] = True
+    acc.exhaustive['cache: all histories of exactly %d operations ending '
+                   'with a poll, reported state in {SUCCESSFUL, FAILED}, '
+                   'hosts {bitbucket, github} x cache size {1, 1000}'
+                   % (full_depth + 1)] = True
     acc.exhaustive['cache: all histories of exactly %d operations, '
                    '32-operation alphabet (sampled only)'
                    % (full_depth + 1)] = False
